@@ -28,10 +28,11 @@ def run(tier):
     d, cases, outs = common.mc_replay(rep, binary, PROP, "MC_C06", keyf=common.default_key)
     # (b) relational, oracle-free: every accepted input of the corpora re-run on its consumed bytes and with suffixes
     corpus = []
-    for mod in (["MC_C05", "MC_C13", "MC_C14", "MC_C10", "MC_C04", "MC_C03"] if thorough else ["MC_C05", "MC_C13", "MC_C14", "MC_C10"]):
+    for mod in (["MC_C05", "MC_C13", "MC_C14", "MC_C10", "MC_C04", "MC_C03"] if thorough else ["MC_C05", "MC_C13", "MC_C14", "MC_C10", "MC_C04"]):
         _, r2, cs = vlib.tlc_chunked(PROP, "corpus_" + mod, mod, nchunks=8)
         rep.add_tlc(mod + "(corpus)", r2)
-        corpus += [c for c in cs if c["fn"] in SELF_DELIMITING and c["expect"]["k"] == "ok" and len(json.dumps(c["input"])) < 20000]
+        keep = [c for c in cs if c["fn"] in SELF_DELIMITING and c["expect"]["k"] == "ok" and len(json.dumps(c["input"])) < 20000]
+        corpus += keep if (thorough or mod != "MC_C04") else keep[::4]
     fz = os.path.join(d, "fuzz.ndjson")
     cpath = os.path.join(d, "corpus.ndjson")
     vlib.write_ndjson(cpath, [{"fn": c["fn"], "a": c["a"], "input": c["input"]} for c in corpus])
